@@ -382,6 +382,7 @@ impl StrokeCtx {
             if dot <= 0.0 || cross.abs() >= hypot * self.join_thresh {
                 match style.join {
                     Join::Bevel => {
+                        self.inner_join_pivot(p0, cross);
                         self.forward_path.line_to(p0 - norm);
                         self.backward_path.line_to(p0 + norm);
                     }
@@ -404,11 +405,13 @@ impl StrokeCtx {
                                 self.backward_path.line_to(miter_pt);
                             }
                         }
+                        self.inner_join_pivot(p0, cross);
                         self.forward_path.line_to(p0 - norm);
                         self.backward_path.line_to(p0 + norm);
                     }
                     Join::Round => {
                         let angle = cross.atan2(dot);
+                        self.inner_join_pivot(p0, cross);
                         if angle > 0.0 {
                             self.backward_path.line_to(p0 + norm);
                             round_join(&mut self.forward_path, tolerance, p0, norm, angle);
@@ -419,6 +422,20 @@ impl StrokeCtx {
                     }
                 }
             }
+        }
+    }
+
+    /// On the inner side of a join, go through the join point itself.
+    ///
+    /// Connecting the two offset points directly subtracts the triangle they form
+    /// with the join point from the winding number; when a neighbouring segment is
+    /// shorter than the stroke is wide that triangle is not covered twice, and the
+    /// filled outline gets a hole.
+    fn inner_join_pivot(&mut self, p0: Point, cross: f64) {
+        if cross > 0.0 {
+            self.backward_path.line_to(p0);
+        } else if cross < 0.0 {
+            self.forward_path.line_to(p0);
         }
     }
 
